@@ -88,7 +88,7 @@ def run_shape(chk, ns, nq, np_, nv, n_sym_T, tgrid="T0-first"):
             chk.violation("raises", "real class raises %s: %s" % (type(e2).__name__, e2), dict(shape=tag, point=point))
 
     try:
-        paths = X.explore(run, name="C02:" + tag, max_paths=16)
+        paths = X.explore(run, name="C02:" + tag, max_paths=16, generic=True)
     except SymError as e:
         chk.harness_error("symbolic run failed: %s" % e)
         return
